@@ -92,6 +92,11 @@ class Scn:
         cdj = authsim.client_data(self.cd_type, self.sign_challenge if self.sign_challenge is not None else self.challenge,
                                   self.origin, extra=self.cd_extra, token_binding=self.token_binding)
         cdj = self.cd_prefix + cdj + self.cd_suffix
+        if getattr(self, "cd_wrap", None):
+            import json as _json
+            for _ in range(self.cd_wrap[0]):
+                cdj = _json.dumps(cdj.decode("utf-8")).encode()
+            cdj += self.cd_wrap[1]
         ad = authsim.authdata(self.sign_rp_id or self.rp_id, self.flags, self.count, aaguid=bytes(16), cred_id=self.at_cred_id if self.at_cred_id is not None else self.cred_id,
                               cose_bytes=cred.cose_bytes, ext=self.ext)
         if self.sign_over == "ad-only":
@@ -213,8 +218,34 @@ def f_rp_other(s, r):
     # (RP ID the relying party expects, RP ID the authenticator hashed): different strings, however similar - no case folding, trimming, IDNA or
     # Unicode normalisation makes them "the same RP ID"
     s.rp_id, s.sign_rp_id = r.choice(RP_ALIASES)
-def f_up_clear(s, r): s.flags &= ~0x01
+    _good_copy_decoys(s)
+def _good_copy_decoys(s):
+    """next to a fault in the SIGNED authenticator data: unsigned response members that carry authenticator data without the fault (right RP ID hash, UP and
+    UV set, a counter above the stored one, this credential's id and key) - an `attestationObject` as registration responses have one, and bare copies"""
+    prev = s.post
+    def post(a, prev=prev):
+        if prev:
+            prev(a)
+        import cbor2
+        good = authsim.authdata(s.rp_id, 0x45, max(s.stored, s.count) + 1, aaguid=bytes(16), cred_id=s.cred_id, cose_bytes=a.cred.cose_bytes)
+        ao = cbor2.dumps({"fmt": "none", "attStmt": {}, "authData": good})
+        a.extra_response = {"attestationObject": authsim.b64u(ao), "authData": authsim.b64u(good), "authenticator_data": authsim.b64u(good), "unsignedAuthenticatorData": authsim.b64u(good)}
+    s.post = post
+def f_rp_hash_of_other_string(s, r):
+    # the RP ID hash is SHA-256 of the RP ID - not of any other string of the ceremony (the origin as in the legacy AppID, its host, the challenge, ...)
+    _keep_expected(s)
+    o = s.origin
+    cands = [o, o + "/", o.split("://")[-1], "https://" + s.rp_id, s.rp_id + ":443", authsim.b64u(s.challenge), s.cd_type, authsim.b64u(s.cred_id), "https://" + s.rp_id + "/app-id.json", " "]
+    s.sign_rp_id = r.choice([c for c in cands if c != s.rp_id])
+def f_cd_wrapped_as_string(s, r):
+    # client data that is a JSON STRING holding the JSON text of the expected object (stringified twice), hashed and signed as such: it is no client data object
+    import json as _json
+    n = r.choice([1, 2])
+    sfx = r.choice([b"", b" ", b"\n"])
+    s.cd_wrap = (n, sfx)
+def f_up_clear(s, r): s.flags &= ~0x01; _good_copy_decoys(s)
 def f_uv_clear(s, r):
+    _good_copy_decoys(s)
     s.require_uv = True; s.flags &= ~0x04
     if r.random() < 0.7:
         # extension outputs that TALK about user verification do not set the UV flag
@@ -247,8 +278,9 @@ def f_counter_equal(s, r):
     if s.count == 0:
         s.count = r.choice([1, 7, 2 ** 31])       # 0 = 0 is the one equal pair the rule accepts
     s.stored = s.count
-def f_counter_lower(s, r): s.stored = s.count + r.choice([1, 2, 1000])
-def f_counter_zero_vs_stored(s, r): s.count = 0; s.stored = r.choice([1, 5, 2 ** 31])
+    _good_copy_decoys(s)
+def f_counter_lower(s, r): s.stored = s.count + r.choice([1, 2, 1000]); _good_copy_decoys(s)
+def f_counter_zero_vs_stored(s, r): s.count = 0; s.stored = r.choice([1, 5, 2 ** 31]); _good_copy_decoys(s)
 def f_bs_without_be(s, r): s.flags = (s.flags | 0x10) & ~0x08
 def f_scheme_mismatch(s, r):
     fam = authsim.KINDS[s.kind][0]
@@ -283,7 +315,7 @@ FAULTS = {
     "id-not-b64-rawid:padded-1": id_fault("padded-1"), "id-not-b64-rawid:padded-2": id_fault("padded-2"), "id-not-b64-rawid:last-char-spare-bits": id_fault("last-char-spare-bits"),
     "id-not-b64-rawid:newline-appended": id_fault("newline-appended"), "id-not-b64-rawid:dot-inserted": id_fault("dot-inserted"), "id-not-b64-rawid:standard-alphabet": id_fault("standard-alphabet"),
     "id-not-b64-rawid:char-appended": id_fault("char-appended"), "id-not-b64-rawid:truncated": id_fault("truncated"), "id-not-b64-rawid:empty": id_fault("empty"),
-    "credential-type": f_cred_type, "challenge-base64url-alias": f_challenge_b64_alias, "origin-alias-spelling": f_origin_alias, "client-data-affix-not-signed": f_cd_unsigned_affix, "client-data-malformed-affix-not-signed": f_cd_unsigned_affix_malformed, "origin-expected-read-as-pattern": f_origin_pattern, "declared-algorithm-of-another-family": f_declared_alg_foreign,
+    "credential-type": f_cred_type, "challenge-base64url-alias": f_challenge_b64_alias, "origin-alias-spelling": f_origin_alias, "client-data-affix-not-signed": f_cd_unsigned_affix, "rp-id-hash-of-another-ceremony-string": f_rp_hash_of_other_string, "client-data-is-a-json-string-wrapping-the-object": f_cd_wrapped_as_string, "client-data-malformed-affix-not-signed": f_cd_unsigned_affix_malformed, "origin-expected-read-as-pattern": f_origin_pattern, "declared-algorithm-of-another-family": f_declared_alg_foreign,
 }
 # faults that can only be expressed in some input forms
 RECORD_ONLY = {"credential-type"}
@@ -337,6 +369,8 @@ def base_variation(s, rng):
         s.cd_extra = {"crossOrigin": rng.choice([True, False]), "other_keys_can_be_added_here": "do not compare clientDataJSON against a template"}
     if rng.random() < 0.3:
         s.user_handle = rng.randbytes(rng.choice([1, 16, 64]))
+    if rng.random() < 0.12 and s.exp_origin is None:
+        s.rp_id = s.origin          # the legacy AppID case (`appid` extension): the identifier the authenticator hashed is the origin string itself - to this API just another RP ID
     if rng.random() < 0.2:
         # the client data is whatever bytes the client serialised and the authenticator hashed: a byte order mark or white space around the JSON text is part of it
         s.cd_prefix, s.cd_suffix = rng.choice([(b"\xef\xbb\xbf", b""), (b" ", b"\n"), (b"\n\t ", b" "), (b"\xef\xbb\xbf", b"\r\n")])
